@@ -57,6 +57,28 @@ func identityModel(st, ct int, spk []byte, rng *rand.Rand) Args {
 	return Args{"st": float64(st), "ct": float64(ct), "pub": anyBytes(pub), "spk": anyBytes(spk), "padding": anyBytes(pad)}
 }
 
+// identityFor: the identity of a signing constructor; when the vector names a declared signing type (declst) the
+// KeysAndCert is assembled by the caller as a struct literal declaring THAT type around the same (Ed25519-format) key
+func identityFor(m Args, st int, spk []byte, rng *rand.Rand) Args {
+	im := identityModel(st, m.Int("ct"), spk, rng)
+	if m.Has("declst") {
+		im["st"] = float64(m.Int("declst"))
+		im["literal"] = true
+	}
+	return im
+}
+
+func literalDest(im Args) (*destination.Destination, error) {
+	k, err := buildKAC(im)
+	if err != nil {
+		return nil, err
+	}
+	if im.Bool("literal") {
+		return &destination.Destination{KeysAndCert: k}, nil
+	}
+	return destination.NewDestination(k)
+}
+
 func anyBytes(b []byte) []any {
 	out := make([]any, len(b))
 	for i, x := range b {
@@ -95,13 +117,18 @@ func init() {
 		res := Res{"setup": true, "ok": false, "err": ""}
 		switch a.Str("fn") {
 		case "NewRouterInfo":
-			k, err := buildKAC(identityModel(st, m.Int("ct"), id.pub, rng))
+			k, err := buildKAC(identityFor(m, st, id.pub, rng))
 			if err != nil {
 				return Res{"setup": false, "err": "identity: " + errStr(err)}
 			}
-			ri, err := router_identity.NewRouterIdentityFromKeysAndCert(k)
-			if err != nil {
-				return Res{"setup": false, "err": "router identity: " + errStr(err)}
+			var ri *router_identity.RouterIdentity
+			if m.Has("declst") {
+				ri = &router_identity.RouterIdentity{KeysAndCert: k} // caller-assembled
+			} else {
+				ri, err = router_identity.NewRouterIdentityFromKeysAndCert(k)
+				if err != nil {
+					return Res{"setup": false, "err": "router identity: " + errStr(err)}
+				}
 			}
 			var addrs []*router_address.RouterAddress
 			for i := 0; i < m.Int("naddr"); i++ {
@@ -138,7 +165,7 @@ func init() {
 				dd, _, derr := destination.ReadDestination(base)
 				d, err = &dd, derr
 			} else {
-				d, err = buildDest(identityModel(st, m.Int("ct"), id.pub, rng))
+				d, err = literalDest(identityFor(m, st, id.pub, rng))
 			}
 			if err != nil {
 				return Res{"setup": false, "err": "destination: " + errStr(err)}
@@ -247,7 +274,7 @@ func init() {
 				}
 			} else {
 				var d *destination.Destination
-				d, err = buildDest(identityModel(st, m.Int("ct"), id.pub, rng))
+				d, err = literalDest(identityFor(m, st, id.pub, rng))
 				if err != nil {
 					return Res{"setup": false, "err": "destination: " + errStr(err)}
 				}
